@@ -106,11 +106,21 @@ func NewVoteTimingDriver(n int) *VoteDriver {
 			d.ops = append(d.ops, voteOp{kind: k, who: i})
 		}
 	}
-	// the same decision voted for through a forwarding contract: the id arrives as another kind of byte array
-	for i := 0; i < n; i++ {
-		d.ops = append(d.ops, voteOp{kind: "setA", who: i, fwd: true})
-	}
 	for _, dl := range []uint32{1, 10, 19, 21} {
+		d.ops = append(d.ops, voteOp{kind: "advance", delta: dl})
+	}
+	return d
+}
+
+// NewVoteCallersDriver: votes that reach the contract in unusual ways - forwarded by a contract that assembles the
+// decision id from two halves (the id arrives as a Buffer), and a cheque whose payee is a contract that presents the
+// same cheque again while it is being paid - next to direct votes for the same and for another id.
+func NewVoteCallersDriver(n int) *VoteDriver {
+	d := &VoteDriver{N: n, Symmetry: n >= 3, MaxAdv: 2}
+	for i := 0; i < n; i++ {
+		d.ops = append(d.ops, voteOp{kind: "setA", who: i}, voteOp{kind: "setA", who: i, fwd: true}, voteOp{kind: "setB", who: i}, voteOp{kind: "chequeP", who: i})
+	}
+	for _, dl := range []uint32{1, 21} {
 		d.ops = append(d.ops, voteOp{kind: "advance", delta: dl})
 	}
 	return d
@@ -126,6 +136,32 @@ import (
 func SetConfig(neofs interop.Hash160, idHead, idTail, key, val []byte) {
 	id := append(idHead, idTail...)
 	contract.Call(neofs, "setConfig", contract.All, id, key, val)
+}
+`
+
+// a payee contract that presents the cheque it is being paid for once more from inside its payment callback (under
+// the voter's witness, which the nested call inherits)
+const votePayeeSrc = `package votepayee
+
+import (
+	"github.com/nspcc-dev/neo-go/pkg/interop"
+	"github.com/nspcc-dev/neo-go/pkg/interop/contract"
+	"github.com/nspcc-dev/neo-go/pkg/interop/runtime"
+	"github.com/nspcc-dev/neo-go/pkg/interop/storage"
+)
+
+func Arm(neofs interop.Hash160, id []byte) {
+	ctx := storage.GetContext()
+	storage.Put(ctx, "neofs", neofs)
+	storage.Put(ctx, "id", id)
+}
+
+func OnNEP17Payment(from interop.Hash160, amount int, data any) {
+	ctx := storage.GetContext()
+	neofs := storage.Get(ctx, "neofs").(interop.Hash160)
+	if from.Equals(neofs) {
+		contract.Call(neofs, "cheque", contract.All, storage.Get(ctx, "id").([]byte), runtime.GetExecutingScriptHash(), amount, []byte("lock"))
+	}
 }
 `
 
@@ -149,6 +185,8 @@ func (d *VoteDriver) Build() *World {
 	w.Invoke(w.GasHash, []neotest.Signer{d.u.S}, "transfer", d.u.Hash, nf.Hash, int64(c17Deposit), nil)
 	w.Invoke(nf.Hash, []neotest.Signer{d.x.S}, "innerRingCandidateAdd", d.x.Pub())
 	w.Deploy("votefwd", CompileSource("votefwd", voteFwdSrc, &compiler.Options{Name: "votefwd", NoEventsCheck: true, NoPermissionsCheck: true, Permissions: WildPermissions()}), nil)
+	vp := w.Deploy("votepayee", CompileSource("votepayee", votePayeeSrc, &compiler.Options{Name: "votepayee", NoEventsCheck: true, NoPermissionsCheck: true, Permissions: WildPermissions()}), nil)
+	w.Invoke(vp.Hash, []neotest.Signer{d.u.S}, "arm", nf.Hash, voteID("idP"))
 	w.Track("U", d.u.Hash, false)
 	w.Track("neofs", nf.Hash, false)
 	w.Freeze()
@@ -191,6 +229,8 @@ func (d *VoteDriver) OpName(_ *Node, i int) string {
 		return "cheque(idC,U,5) by " + d.who(o.who)
 	case "chequeBig":
 		return "cheque(idG,U,more than the contract holds) by " + d.who(o.who)
+	case "chequeP":
+		return "cheque(idP,re-entering payee contract,5) by " + d.who(o.who)
 	case "alphaUpd":
 		return "alphabetUpdate(idD,rotated list) by " + d.who(o.who)
 	case "alphaShrink":
@@ -256,6 +296,9 @@ func (d *VoteDriver) Step(x *Exec, n *Node, i int) StepResult {
 	case "cheque":
 		id = "idC"
 		scr = Script(h, "cheque", voteID(id), d.u.Hash, int64(5), []byte("lock"))
+	case "chequeP":
+		id = "idP"
+		scr = Script(h, "cheque", voteID(id), w.Contracts["votepayee"].Hash, int64(5), []byte("lock"))
 	case "chequeBig":
 		id = "idG"
 		scr = Script(h, "cheque", voteID(id), d.u.Hash, int64(2*c17Deposit), []byte("lock"))
@@ -347,6 +390,14 @@ func (d *VoteDriver) Step(x *Exec, n *Node, i int) StepResult {
 			nm.gasC -= 5
 			expN = []Notif{{"GAS", "Transfer", []any{NX(h.BytesBE()), NX(d.u.Hash.BytesBE()), "i5"}},
 				{"neofs", "Cheque", []any{NX(voteID(id)), NX(d.u.Hash.BytesBE()), "i5", NXs("lock")}}}
+		case "chequeP":
+			nm.gasC -= 5
+			p := w.Contracts["votepayee"].Hash
+			expN = []Notif{{"GAS", "Transfer", []any{NX(h.BytesBE()), NX(p.BytesBE()), "i5"}},
+				{"neofs", "Cheque", []any{NX(voteID(id)), NX(p.BytesBE()), "i5", NXs("lock")}}}
+			// the nested presentation arrives after the decision has been carried out and its ballot removed: it is the
+			// first vote of a new ballot for the same id (the committee sizes of this exploration need more than one vote)
+			nm.ballots[id] = ballot{[]int{o.who}, now}
 		case "alphaUpd", "alphaShrink", "alphaDrop0":
 			nm.alpha = rotated
 			var ks []any
@@ -364,7 +415,7 @@ func (d *VoteDriver) Step(x *Exec, n *Node, i int) StepResult {
 	if !isMember && o.who != -2 || (o.who == -2 && o.kind != "candRm") {
 		// anybody else is rejected and never counts
 		if obs.Halt || len(diff) > 0 {
-			where["method"] = map[string]string{"setA": "setConfig", "setB": "setConfig", "cheque": "cheque", "chequeBig": "cheque", "alphaUpd": "alphabetUpdate", "alphaShrink": "alphabetUpdate", "alphaDrop0": "alphabetUpdate", "candRm": "innerRingCandidateRemove"}[o.kind]
+			where["method"] = map[string]string{"setA": "setConfig", "setB": "setConfig", "cheque": "cheque", "chequeBig": "cheque", "chequeP": "cheque", "alphaUpd": "alphabetUpdate", "alphaShrink": "alphabetUpdate", "alphaDrop0": "alphabetUpdate", "candRm": "innerRingCandidateRemove"}[o.kind]
 			return viol("stranger-vote-counted", fmt.Sprintf("%s: halt=%v, storage diff %v", d.OpName(n, i), obs.Halt, diff))
 		}
 		nn.M = m
